@@ -72,13 +72,14 @@ SEEDS = {
     # (the same engine id falls back into step inside the USM block:
     # 30 LL 04 0b <engine id> 02 01 boots ...)
     "v3auth-discovery-realign": ("v3:authNoPriv:md5", "discovery"),
+    "v3auth-get1-realign": ("v3:authNoPriv:md5", "get1"),
     "v3auth-report": ("v3:authNoPriv:md5", "report"),
     "v2c-trap": ("v2c", "trap"),
     "v2c-60k": ("v2c", "big"),
     "v2c-get1500": ("v2c", "many"),
 }
 
-QUICK_SEEDS = ["v2c-get1", "v2c-error", "v3noauth-get1", "v3auth-get1", "v3priv-get1-after", "v3priv-get1-after-realign", "v3auth-discovery", "v3auth-discovery-realign", "v2c-trap", "v2c-get1500"]
+QUICK_SEEDS = ["v2c-get1", "v2c-error", "v3noauth-get1", "v3auth-get1", "v3priv-get1-after", "v3priv-get1-after-realign", "v3auth-discovery", "v3auth-discovery-realign", "v3auth-get1-realign", "v2c-trap", "v2c-get1500"]
 REALIGN_ENGINE = b"\x80\x00\x1f\x88\x04agen\x05\x00"
 
 
@@ -406,6 +407,17 @@ def family_cases(family, seed, tier, big):
                 if val == seed[p]:
                     continue
                 out.append((("header", p, val), lambda d, p=p, val=val: d[:p] + bytes([val]) + d[p + 1 :]))
+    elif family == "header-modal":
+        # the header positions again, with the octet values that change how a
+        # header is read (run with the application's logging at DEBUG)
+        positions = header_positions(seed)
+        if big:
+            positions = positions[:24] + positions[24:: max(1, len(positions) // 12)]
+        for p in positions:
+            for val in (0x80, 0x81, 0x84, 0x00, 0xFF, 0x30, 0x04, 0x02):
+                if val == seed[p]:
+                    continue
+                out.append((("header", p, val), lambda d, p=p, val=val: d[:p] + bytes([val]) + d[p + 1 :]))
     elif family == "lenclaim":
         ts = tlvs(seed)
         if big and len(ts) > 60:
@@ -589,6 +601,12 @@ def shards(tier):
                     out.append({"tier": tier, "seed": name, "family": fam, "part": part, "of": 8})
             else:
                 out.append({"tier": tier, "seed": name, "family": fam, "part": 0, "of": 1})
+    # with the application's logging at DEBUG (datagrams and messages are
+    # dumped / pretty-printed on their way in)
+    for name in names:
+        if SEEDS[name][1] not in ("big", "many"):
+            out.append({"tier": tier, "seed": name, "family": "header-modal", "part": 0, "of": 1, "lib_log": "DEBUG"})
+            out.append({"tier": tier, "seed": name, "family": "lenclaim", "part": 0, "of": 1, "lib_log": "DEBUG"})
     for name in ("v2c-get1", "v3noauth-get1", "v2c-trap"):
         out.append({"tier": tier, "seed": name, "family": "nesting", "part": 0, "of": 1})
     out.append({"tier": tier, "special": "stubborn"})
@@ -676,6 +694,8 @@ def replay(case):
     seed = target.seed()
     label = tuple(case["label"])
     cases = dict((tuple(l), m) for l, m in family_cases(case["family"], seed, "thorough", target.kind in ("big", "many")))
+    if case["family"] == "header-modal":
+        cases = dict((tuple(l), m) for l, m in family_cases("header", seed, "thorough", target.kind in ("big", "many")))
     mutate = cases.get(label)
     if mutate is None:
         return [{"kind": "replay-case-not-found", "detail": case}]
